@@ -7,10 +7,13 @@ CONSTANTS
   KillSigs <- KillSigsQ
   MaxOps = 4
   MaxEnv = 2
+  Logs <- LogsMC
+  Steal = FALSE
   Devs <- NoDevs
 INVARIANT ObservedStatusTrue
 INVARIANT DeathObserved
 INVARIANT WaitReturnsCode
+INVARIANT NoClaimWithoutStatus
 INVARIANT NeverAliveAfterReaped
 INVARIANT NeverTerminatedWhileRunning
 INVARIANT ForceLeavesDead
